@@ -23,6 +23,8 @@ MODULES = [
     "options",
     "emptiness",
     "storage",
+    "chp",
+    "nodal",
 ]
 
 
